@@ -1,5 +1,6 @@
 import BarterModel.Lemmas.DataSet
 import BarterModel.Lemmas.KernelsAgree.Welford
+import BarterModel.Lemmas.KernelsAgree.DataSetSM
 /-!
 # C17 — Running dataset statistics equal the statistics of the whole dataset
 
@@ -153,5 +154,22 @@ theorem kernels_agree_with_source :
         BarterModel.Generated.welford_online.calculate_population_variance m count
           = calculatePopulationVariance m count) :=
   BarterModel.KernelsAgree.welford_kernels_agree
+
+/-- **Tie of the whole state machine to the source by translation.** `DataSetSummary`, `Dispersion`,
+`Range` (structs and their derived `Default`s), `Range::{init, update, range}`, `Dispersion::update`
+and `DataSetSummary::update` are regenerated from the current
+`barter/src/statistic/summary/dataset/{mod,dispersion}.rs` by `tools/rust2lean_sm.py` on every run
+(`Generated/Machines2.lean`, group `dataset`), and each generated function equals the model's
+function the theorems above are about, for all states and values, through the record bijections
+`ofRange` / `ofDisp` / `ofSum`; the last clause says that folding the generated `update` over any
+dataset from the generated `default` is `Summary.run`. `algorithm::sqrt` is not translated: the
+generated code takes it as a parameter `sqrt : Rat → Option Rat`, the clauses hold for every `sqrt`
+that returns `Some` on non-negative arguments (its documented contract, `SqrtTotal`), with the
+model's `sqrtFn = fun x => (sqrt x).getD 0`, and their proof shows that
+`.expect("variance cannot be negative")` is dead code. The statement is that of
+`KernelsAgree.DataSetSM.dataset_sm_agree` (Lemmas/KernelsAgree/DataSetSM.lean). -/
+theorem state_machine_agrees_with_source :
+    type_of% BarterModel.KernelsAgree.DataSetSM.dataset_sm_agree :=
+  BarterModel.KernelsAgree.DataSetSM.dataset_sm_agree
 
 end BarterModel.Props.C17
